@@ -24,6 +24,10 @@ func xmpExpectValue(s *gen.XPropSpec, v string) string {
 	case gen.XString:
 		return strconv.Quote(v)
 	case gen.XInt:
+		if strings.HasPrefix(v, "-") {
+			n, _ := strconv.ParseInt(v, 10, 64)
+			return strconv.FormatInt(n, 10)
+		}
 		n, _ := strconv.ParseUint(v, 10, 64)
 		return strconv.FormatUint(n, 10)
 	case gen.XRational:
